@@ -79,6 +79,11 @@ var c11Lookalikes = []c11Kind{
 	{"notmytag", c11TStr, `notmytag:"v,arg=a b"`, false, false},
 	{"values", c11TStr, `values:"lit"`, false, false},
 	{"wired", c11TIface, `wired:"prov"`, false, false},
+	// recognised tags whose whole value looks like a marker of some other convention: values like any other
+	{"vdash", c11TStr, `value:"-"`, false, true},
+	{"customdash", c11TStr, `mytag:"-"`, false, false},
+	{"vomit", c11TStr, `value:"omitempty"`, false, true},
+	{"custominline", c11TStr, `mytag:"inline"`, false, false},
 }
 
 // c11Rec records what a user-supplied tag processor receives for `mytag`.
@@ -349,7 +354,7 @@ func c11Shapes(c *core.Ctx) {
 				return
 			}
 			if f.tagged && got.err == nil {
-				want := map[string]string{"wire": "same-as-provider=true", "wirename": "same-as-provider=true", "func": "same-as-provider=true", "vlit": "lit", "vph": "cfg", "prop": "cfg", "prefix": "cfg", "logger": "logger-set=true"}[f.name]
+				want := map[string]string{"wire": "same-as-provider=true", "wirename": "same-as-provider=true", "func": "same-as-provider=true", "vlit": "lit", "vph": "cfg", "prop": "cfg", "prefix": "cfg", "logger": "logger-set=true", "vdash": "-", "vomit": "omitempty"}[f.name]
 				if got.vals[n] != want {
 					c.Outcome("not-processed")
 					c.Report(key, "not-processed", fmt.Sprintf("%s: tagged field %s (%s) holds %q, want %q", desc, n, f.name, got.vals[n], want), cs)
@@ -365,8 +370,13 @@ func c11Shapes(c *core.Ctx) {
 		// the user-supplied tag processor receives exactly the mytag fields, value and arguments
 		var want []string
 		for i, f := range fs {
-			if f.name == "custom" {
+			switch f.name {
+			case "custom":
 				want = append(want, fmt.Sprintf("F%d=v.Arg(a,b)", i))
+			case "customdash":
+				want = append(want, fmt.Sprintf("F%d=-", i))
+			case "custominline":
+				want = append(want, fmt.Sprintf("F%d=inline", i))
 			}
 		}
 		sort.Strings(want)
